@@ -835,6 +835,10 @@ def run(repo, rep):
     dispatch_rules(repo, rep)
     # the chain tm -> geo -> tm: the longitude CoordTM.geo() holds must be one CoordGeo.tm() (geo2grid) accepts
     common.longitude_range_rule(repo, rep)
+    # CoordGeo.tm() / CoordCart.tm() call geo2grid with the automatic zone for every position of the band, UTM and ISG: its input guards and
+    # the zone / central-meridian lattice are part of the chains
+    from . import c01 as _c01
+    _c01.guard_rules(repo, rep)
     # ... and of the type the coordinate classes accept
     common.float_result_rule(repo, rep, 'geodepy.convert', 'xyz2llh', (0, 1))
     common.float_result_rule(repo, rep, 'geodepy.convert', 'grid2geo', (0, 1))
